@@ -88,6 +88,8 @@ type File struct {
 	// Yield, when non-nil, is called before each call is executed (outside
 	// the file's own lock) - used by the deterministic scheduler and for gates.
 	Yield func(k Kind)
+	// YieldAfter, when non-nil, is called after a ReadAt/WriteAt was executed, before it returns.
+	YieldAfter func(k Kind)
 
 	tag      string
 	tagFn    func() string
@@ -267,6 +269,14 @@ func (f *File) ReadAt(p []byte, off int64) (int, error) {
 	if y := f.Yield; y != nil {
 		y(KRead)
 	}
+	n, err := f.readAt(p, off)
+	if y := f.YieldAfter; y != nil {
+		y(KRead) // the caller may be descheduled between the completion of the call and its use of the data
+	}
+	return n, err
+}
+
+func (f *File) readAt(p []byte, off int64) (int, error) {
 	f.mu.Lock()
 	defer f.mu.Unlock()
 	tag := f.curTag()
@@ -330,6 +340,14 @@ func (f *File) WriteAt(p []byte, off int64) (int, error) {
 	if y := f.Yield; y != nil {
 		y(KWrite)
 	}
+	n, err := f.writeAt(p, off)
+	if y := f.YieldAfter; y != nil {
+		y(KWrite)
+	}
+	return n, err
+}
+
+func (f *File) writeAt(p []byte, off int64) (int, error) {
 	f.mu.Lock()
 	defer f.mu.Unlock()
 	tag := f.curTag()
